@@ -327,6 +327,7 @@ type Job struct {
 	Ch     Chooser `json:"ch"`
 	Delays []int   `json:"delays,omitempty"`
 	Procs  int     `json:"procs,omitempty"`
+	Dl     int     `json:"deadline_s,omitempty"`
 }
 
 func serve(line []byte) interface{} {
@@ -337,8 +338,13 @@ func serve(line []byte) interface{} {
 	if j.Mode == "free" {
 		return freerun(&j.Spec, j.Full, j.Delays, j.Procs)
 	}
+	if j.Dl > 0 {
+		lockDeadline = time.Duration(j.Dl) * time.Second
+	}
 	return lockstep(&j.Spec, j.Full, j.Ch.fn())
 }
+
+var lockDeadline = 10 * time.Second
 
 var worker *common.Worker
 
@@ -352,19 +358,36 @@ func runJob(j Job) Obs {
 	if nBad >= maxBad {
 		return Obs{Full: j.Full, Skipped: true}
 	}
-	var o Obs
-	died, timedOut, stderr := worker.Call(j, &o, 40*time.Second)
-	if died {
+	o := callWorker(j, 40*time.Second)
+	if o.Hang {
+		// a hang is judged by a deadline: run the case once more in a fresh process with three times the
+		// time, and report it only if it does not return then either
+		worker.Close()
+		j.Dl = 30
+		o2 := callWorker(j, 100*time.Second)
+		if !o2.Hang {
+			hangsNotReproduced++
+			o = o2
+		} else {
+			worker.Close()
+		}
+	}
+	if o.Hang || o.Crash != "" {
 		nBad++
+	}
+	return o
+}
+
+var hangsNotReproduced int
+
+func callWorker(j Job, limit time.Duration) Obs {
+	var o Obs
+	died, timedOut, stderr := worker.Call(j, &o, limit)
+	if died {
 		return Obs{Full: j.Full, Crash: common.PanicSite(stderr)}
 	}
 	if timedOut {
-		nBad++
 		return Obs{Full: j.Full, Hang: true}
-	}
-	if o.Hang {
-		nBad++
-		worker.Close() // goroutines of the hung Parse are still there: start a fresh process for the next case
 	}
 	return o
 }
@@ -469,7 +492,7 @@ func lockstep(s *Spec, full bool, choose func(blocked []int, step int) int) Obs 
 		close(done)
 	}()
 	o := Obs{Full: full}
-	deadline := time.Now().Add(10 * time.Second)
+	deadline := time.Now().Add(lockDeadline)
 	wait := func() bool { // until settled with something blocked, or done; false = done
 		// the stack inspection stops the world: poll with a growing pause
 		pause := 40 * time.Microsecond
@@ -1279,6 +1302,12 @@ func main() {
 	defer worker.Close()
 	c := common.Setup("C05")
 	defer c.Finish()
+	defer func() {
+		c.Res.Extra["hangs_not_reproduced_on_retry"] = hangsNotReproduced
+		if hangsNotReproduced > 0 {
+			c.Res.Notes = append(c.Res.Notes, fmt.Sprintf("%d run(s) exceeded the 10 s deadline once and completed normally when repeated with 30 s (machine load); they are judged on the repeated run", hangsNotReproduced))
+		}
+	}()
 	c.Res.Rule = "each case = (import graph with directories and import spellings, --max-import-depth, one completion order of the file reads driven through the real parse.Parser.Parse by a gate reader, or one free run with per-file read delays); distinct = distinct (input, release order); non-trivial = some file is reached by more than one import (diamond, cycle, self-import, repeated import) or the depth limit excludes a reachable file"
 	header := `From Coq Require Import List NArith Bool. Import ListNotations.
 Require Import Verif.Base.Harness Verif.Imports.Rules Verif.Imports.Collect Verif.Imports.Run Verif.Gen.ImportRules.
